@@ -549,6 +549,8 @@ class Gen(object):
                        "alpha": 1.0}}
       if k == 4:
         return {"q": "quantized_tanh", "kw": {"bits": self.i(3, 8)}}
+      if not strings:
+        return {"s": "quantized_relu(4,1)"}
       return {"s": self.pick(["quantized_relu(4,1)", "relu",
                               "quantized_bits(6,2,1)"])}
     k = self.i(0, 17)
@@ -686,21 +688,23 @@ class Gen(object):
     else:
       out = [-(-h // s[0]), -(-w // s[1])]
     kw = {"pool_size": p, "strides": strides, "padding": padding}
-    q = {"average_quantizer": self.pick([None, "b", "b"]) and
+    q = {"average_quantizer": self.pick(
+        [None, "b", "b"] if self.profile != "c14" else [None, "b", "b", "b", "b", "b"]) and
          {"q": "quantized_bits",
           "kw": {"bits": self.i(3, 8), "integer": 0, "symmetric": self.pick([0, 1]),
                  "alpha": self.pick([None, 1.0])}},
-         "activation": self.aq()}
+         "activation": self.aq(strings=self.profile != "c14")}
     ld = {"name": self.name("QAveragePooling2D"), "cls": "QAveragePooling2D",
           "in": [src], "kw": kw, "q": q}
     return ld, [out[0], out[1], c]
 
   def l_qgap(self, shape, src):
-    q = {"average_quantizer": self.pick([None, "b", "b"]) and
+    q = {"average_quantizer": self.pick(
+        [None, "b", "b"] if self.profile != "c14" else [None, "b", "b", "b", "b", "b"]) and
          {"q": "quantized_bits",
           "kw": {"bits": self.i(3, 10), "integer": 0, "symmetric": self.pick([0, 1]),
                  "alpha": self.pick([None, 1.0])}},
-         "activation": self.aq()}
+         "activation": self.aq(strings=self.profile != "c14")}
     ld = {"name": self.name("QGlobalAveragePooling2D"),
           "cls": "QGlobalAveragePooling2D", "in": [src], "kw": {}, "q": q}
     return ld, [shape[-1]]
@@ -709,9 +713,10 @@ class Gen(object):
     kw = {}
     if self.chance(4):
       kw["epsilon"] = self.pick([0.01, 1e-5])
-    if self.chance(4):
+    rate = 10 if self.profile == "c14" else 4
+    if self.chance(rate):
       kw["center"] = False
-    if self.chance(4):
+    if self.chance(rate):
       kw["scale"] = False
     q = {}
     mode = self.i(0, 3)
@@ -902,7 +907,7 @@ def model_strategy(profile="c13", rich=False, family=None):
       g.lossy_left = 1
     fam = family or g.pick(["image", "image", "seq", "vec"])
     layers, shapes = [], {}
-    maxbody = 4 if rich else 3
+    maxbody = 4 if rich else 2
     if fam == "image":
       shapes["in"] = [g.i(3, 7), g.i(3, 7), g.i(1, 3)]
       cur = "in"
@@ -1041,3 +1046,285 @@ def model_strategy(profile="c13", rich=False, family=None):
             "xseed": g.i(0, 10 ** 6)}
 
   return _s()
+
+
+def freeze_chain_strategy():
+  """Sequential models inside the documented support envelope of
+  clone_model_and_freeze_auto_po2_scale: QConv2D / QDepthwiseConv2D / QDense
+  with at most one auto_po2 quantizer (the kernel's), QBatchNormalization whose
+  only auto_po2 quantizer is the inverse quantizer, QActivation, Flatten."""
+  st = _st()
+
+  @st.composite
+  def _s(draw):
+    g = Gen(draw, "c14", False)
+
+    def kq():
+      bits = g.i(3, 8)
+      k = g.i(0, 5)
+      if k <= 2:
+        return {"q": "quantized_bits",
+                "kw": {"bits": bits, "integer": g.i(0, min(3, bits - 1)),
+                       "symmetric": 1, "alpha": "auto_po2"}}
+      if k == 3:
+        return {"q": "quantized_bits",
+                "kw": {"bits": bits, "integer": g.i(0, min(3, bits - 1)),
+                       "symmetric": g.pick([0, 1]), "alpha": 1.0}}
+      if k == 4:
+        return g.q_po2("weight")
+      return {"q": "quantized_bits",
+              "kw": {"bits": bits, "integer": g.i(0, 2), "symmetric": 1,
+                     "alpha": None}}       # kernel slot: becomes auto_po2
+
+    def bq():
+      if g.chance(3):
+        return None
+      bits = g.i(3, 8)
+      return {"q": "quantized_bits",
+              "kw": {"bits": bits, "integer": g.i(0, min(3, bits - 1)),
+                     "symmetric": g.pick([0, 1]), "alpha": g.pick([None, 1.0])}}
+
+    layers, shapes = [], {}
+    shapes["in"] = [g.i(3, 6), g.i(3, 6), g.i(1, 2)]
+    cur = "in"
+    for _ in range(g.i(1, 3)):
+      sh = shapes[cur]
+      k = g.pick(["conv", "conv", "dw", "act"])
+      if k == "conv":
+        ld, osh = g.l_qconv2d(sh, cur)
+        ld["q"] = {"kernel_quantizer": kq(), "bias_quantizer": bq(),
+                   "activation": None}
+        ld["kw"].pop("mask", None)
+      elif k == "dw":
+        ld, osh = g.l_qdwconv2d(sh, cur)
+        ld["q"] = {"depthwise_quantizer": kq(), "bias_quantizer": bq(),
+                   "activation": None}
+      else:
+        ld, osh = g.l_qact(sh, cur)
+      layers.append(ld)
+      shapes[ld["name"]] = osh
+      cur = ld["name"]
+      if k in ("conv", "dw") and g.b():
+        bn = {"name": g.name("QBatchNormalization"), "cls": "QBatchNormalization",
+              "in": [cur], "kw": {}, "q": {}}
+        mode = g.i(0, 2)
+        if mode == 0:
+          bn["q"] = {"gamma_quantizer": None, "variance_quantizer": None,
+                     "beta_quantizer": bq(), "mean_quantizer": bq(),
+                     "inverse_quantizer": {
+                         "q": "quantized_bits",
+                         "kw": {"bits": g.i(4, 8), "integer": g.i(0, 2),
+                                "symmetric": 1, "alpha": "auto_po2"}}}
+        elif mode == 1:
+          bn["q"] = {"gamma_quantizer": None, "variance_quantizer": None,
+                     "beta_quantizer": bq(), "mean_quantizer": bq(),
+                     "inverse_quantizer": {
+                         "q": "quantized_bits",
+                         "kw": {"bits": g.i(4, 8), "integer": g.i(0, 2),
+                                "symmetric": 1, "alpha": 1.0}}}
+        layers.append(bn)
+        shapes[bn["name"]] = osh
+        cur = bn["name"]
+    sh = shapes[cur]
+    fl = {"name": g.name("Flatten"), "cls": "Flatten", "in": [cur], "kw": {},
+          "q": {}}
+    layers.append(fl)
+    units = g.i(1, 4)
+    dn = {"name": g.name("QDense"), "cls": "QDense", "in": [fl["name"]],
+          "kw": {"units": units, "use_bias": g.b()},
+          "q": {"kernel_quantizer": kq(), "bias_quantizer": bq(),
+                "activation": None}}
+    layers.append(dn)
+    return {"input": shapes["in"], "layers": layers, "out": dn["name"],
+            "family": "chain", "wseed": g.i(0, 10 ** 6),
+            "wscale": g.pick([1.0, 0.25, 3.0]), "xseed": g.i(0, 10 ** 6)}
+
+  return _s()
+
+
+# --------------------------------------------------------------------------
+# deterministic canonical descriptions (coverage floor + regression set):
+# every layer class once, with non-default values for the constructor
+# arguments its get_config() has to carry.
+
+
+def _qb(bits, integer, alpha=None, symmetric=1, **kw):
+  d = {"bits": bits, "integer": integer, "symmetric": symmetric, "alpha": alpha}
+  d.update(kw)
+  return {"q": "quantized_bits", "kw": d}
+
+
+def _desc(inp, layers, fam, seed):
+  names = []
+  prev = "in"
+  out = []
+  for k, (cls, kw, q) in enumerate(layers):
+    extra = {}
+    if isinstance(q, dict) and "__inner__" in q:
+      q = dict(q)
+      extra["inner"] = q.pop("__inner__")
+    if isinstance(kw, dict) and "__in__" in kw:
+      kw = dict(kw)
+      ins = kw.pop("__in__")
+    else:
+      ins = [prev]
+    name = "c%d_%s" % (k + 1, cls.lower())
+    ld = {"name": name, "cls": cls, "in": ins, "kw": kw, "q": q}
+    ld.update(extra)
+    if "inner" in ld:
+      ld["inner"] = dict(ld["inner"], name=name + "_inner")
+    out.append(ld)
+    names.append(name)
+    prev = name
+  return {"input": inp, "layers": out, "out": prev, "family": fam,
+          "wseed": 1000 + seed, "wscale": 1.0, "xseed": 2000 + seed}
+
+
+def canonical_models(profile):
+  relu = {"q": "quantized_relu", "kw": {"bits": 4, "integer": 1}}
+  po2 = {"q": "quantized_po2", "kw": {"bits": 4, "max_value": 2}}
+  rpo2 = {"q": "quantized_relu_po2", "kw": {"bits": 4, "max_value": 2}}
+  tern = {"q": "ternary", "kw": {"alpha": 1.0, "threshold": 0.5}}
+  binr = {"q": "binary", "kw": {"alpha": 1.0}}
+  auto = _qb(4, 0, "auto_po2")
+  fx = _qb(5, 1, 1.0)
+  fl = ("Flatten", {}, {})
+  ms = []
+  # image family
+  ms.append(_desc([5, 5, 2], [
+      ("QConv2D", {"filters": 3, "kernel_size": [2, 3], "strides": [1, 1],
+                   "padding": "same", "dilation_rate": [2, 1], "use_bias": True,
+                   "mask": [[1, 0, 1], [0, 1, 1]]},
+       {"kernel_quantizer": auto, "bias_quantizer": fx, "activation": relu}),
+      ("QBatchNormalization", {"epsilon": 0.01}, {}),
+      ("QAveragePooling2D", {"pool_size": [2, 1], "strides": [1, 2], "padding": "same"},
+       {"average_quantizer": _qb(6, 0, None, 0), "activation": None}),
+      ("QGlobalAveragePooling2D", {}, {"average_quantizer": _qb(8, 0, 1.0),
+                                      "activation": _qb(6, 2, 1.0)}),
+      ("QDense", {"units": 3, "use_bias": False},
+       {"kernel_quantizer": po2, "bias_quantizer": None,
+        "activation": {"s": "quantized_tanh(5)"}})], "image", 1))
+  ms.append(_desc([6, 5, 2], [
+      ("QDepthwiseConv2D", {"kernel_size": [2, 2], "strides": [2, 2], "padding": "same",
+                            "depth_multiplier": 2, "use_bias": True,
+                            "dilation_rate": [1, 1]},
+       {"depthwise_quantizer": auto, "bias_quantizer": po2, "activation": None}),
+      ("QBatchNormalization", {},
+       {"gamma_quantizer": None, "variance_quantizer": None,
+        "beta_quantizer": fx, "mean_quantizer": fx,
+        "inverse_quantizer": _qb(8, 0, "auto_po2")}),
+      ("QActivation", {}, {"activation": relu}),
+      ("QSeparableConv2D", {"filters": 3, "kernel_size": [2, 1], "strides": [1, 1],
+                            "padding": "valid", "dilation_rate": [1, 1],
+                            "depth_multiplier": 2, "use_bias": True},
+       {"depthwise_quantizer": fx, "pointwise_quantizer": tern,
+        "bias_quantizer": _qb(4, 1, None), "activation": {"s": "quantized_relu(4,1)"}}),
+      fl], "image", 2))
+  ms.append(_desc([5, 4, 1], [
+      ("QConv2DBatchnorm", {"filters": 2, "kernel_size": [2, 2], "strides": [1, 1],
+                            "padding": "valid", "dilation_rate": [1, 1], "use_bias": True,
+                            "folding_mode": "batch_stats_folding", "ema_freeze_delay": 7,
+                            "epsilon": 0.01},
+       {"kernel_quantizer": fx, "bias_quantizer": fx, "activation": relu}),
+      ("QDepthwiseConv2DBatchnorm", {"kernel_size": [2, 2], "strides": [1, 1],
+                                     "padding": "same", "depth_multiplier": 2,
+                                     "use_bias": False, "dilation_rate": [1, 1],
+                                     "folding_mode": "ema_stats_folding"},
+       {"depthwise_quantizer": _qb(6, 2, 1.0), "bias_quantizer": fx,
+        "activation": None}),
+      fl], "image", 3))
+  # residual / non-fusable placement
+  ms.append(_desc([4, 4, 2], [
+      ("QConv2D", {"filters": 2, "kernel_size": [1, 1], "strides": [1, 1],
+                   "padding": "same", "dilation_rate": [1, 1], "use_bias": True},
+       {"kernel_quantizer": fx, "bias_quantizer": fx, "activation": None}),
+      ("QBatchNormalization", {}, {}),
+      ("Add", {"__in__": ["c1_qconv2d", "c2_qbatchnormalization"]}, {}),
+      ("QScaleShift", {"use_bias": True},
+       {"weight_quantizer": fx, "bias_quantizer": fx, "activation": relu}),
+      fl], "image", 4))
+  # sequence family
+  rq = {"kernel_quantizer": fx, "recurrent_quantizer": _qb(4, 0, 1.0),
+        "bias_quantizer": po2, "state_quantizer": _qb(5, 1, 1.0),
+        "activation": {"s": "quantized_tanh(4)"}}
+  rq2 = dict(rq, recurrent_activation={"s": "quantized_sigmoid(4)"})
+  ms.append(_desc([4, 2], [
+      ("QConv1D", {"filters": 3, "kernel_size": 2, "strides": 1, "padding": "causal",
+                   "dilation_rate": 2, "use_bias": True},
+       {"kernel_quantizer": auto, "bias_quantizer": fx, "activation": relu}),
+      ("QSeparableConv1D", {"filters": 2, "kernel_size": 2, "strides": 1,
+                            "padding": "same", "dilation_rate": 1,
+                            "depth_multiplier": 2, "use_bias": True},
+       {"depthwise_quantizer": fx, "pointwise_quantizer": po2, "bias_quantizer": fx,
+        "activation": None}),
+      ("QSimpleRNN", {"units": 2, "use_bias": True, "return_sequences": True,
+                      "go_backwards": True}, rq)], "seq", 5))
+  ms.append(_desc([3, 2], [
+      ("QLSTM", {"units": 2, "use_bias": True, "return_sequences": True,
+                 "unit_forget_bias": False, "implementation": 2}, rq2),
+      ("QGRU", {"units": 2, "use_bias": False, "return_sequences": False,
+                "reset_after": True}, dict(rq2, bias_quantizer=None))], "seq", 6))
+  if profile == "c13":
+    ms.append(_desc([3, 2], [
+        ("QBidirectional", {"merge_mode": "sum"},
+         {"__inner__": {"cls": "QSimpleRNN", "in": ["in"],
+                        "kw": {"units": 2, "use_bias": True, "return_sequences": False},
+                        "q": rq}})], "seq", 7))
+    ms.append(_desc([4], [
+        ("QDense", {"units": 3, "use_bias": True},
+         {"kernel_quantizer": binr, "bias_quantizer": tern,
+          "activation": {"q": "quantized_ulaw", "kw": {"bits": 6, "integer": 1,
+                                                       "symmetric": 1, "u": 15.0}}}),
+        ("QAdaptiveActivation", {"activation": "quantized_relu", "total_bits": 5,
+                                 "symmetric": False, "per_channel": True,
+                                 "po2_rounding": True, "relu_neg_slope": 0.25,
+                                 "quantization_delay": 5, "ema_freeze_delay": 9,
+                                 "ema_decay": 0.99, "current_step": 3}, {}),
+        ("QActivation", {}, {"activation": {"q": "stochastic_ternary",
+                                            "kw": {"alpha": 1.0, "threshold": 0.25,
+                                                   "temperature": 4.0,
+                                                   "use_real_sigmoid": False}}}),
+        ("QDense", {"units": 2, "use_bias": True},
+         {"kernel_quantizer": {"q": "stochastic_binary",
+                               "kw": {"alpha": "auto", "temperature": 4.0}},
+          "bias_quantizer": {"q": "quantized_linear",
+                             "kw": {"bits": 5, "integer": 1, "symmetric": 0,
+                                    "alpha": 1.0, "keep_negative": False}},
+          "activation": {"q": "quantized_sigmoid",
+                         "kw": {"bits": 5, "symmetric": True,
+                                "use_real_sigmoid": True}}})], "vec", 8))
+    ms.append(_desc([3], [
+        ("QDense", {"units": 2, "use_bias": True},
+         {"kernel_quantizer": {"q": "bernoulli", "kw": {"alpha": 1.0}},
+          "bias_quantizer": rpo2,
+          "activation": {"q": "quantized_tanh",
+                         "kw": {"bits": 4, "symmetric": True, "use_real_tanh": True}}})],
+                    "vec", 9))
+  else:
+    ms.append(_desc([4, 4, 1], [
+        ("QConv2D", {"filters": 3, "kernel_size": [2, 2], "strides": [2, 2],
+                     "padding": "valid", "dilation_rate": [1, 1], "use_bias": False},
+         {"kernel_quantizer": _qb(4, 2, "auto_po2"), "bias_quantizer": _qb(4, 2, None),
+          "activation": None}),
+        ("QDepthwiseConv2D", {"kernel_size": [2, 2], "strides": [1, 1],
+                              "padding": "valid", "depth_multiplier": 1,
+                              "use_bias": True, "dilation_rate": [1, 1]},
+         {"depthwise_quantizer": _qb(6, 3, "auto_po2"), "bias_quantizer": _qb(4, 2, 1.0),
+          "activation": None}),
+        ("QBatchNormalization", {},
+         {"gamma_quantizer": None, "variance_quantizer": None,
+          "beta_quantizer": _qb(4, 0, None), "mean_quantizer": _qb(4, 2, None),
+          "inverse_quantizer": _qb(8, 0, "auto_po2")}),
+        ("QActivation", {}, {"activation": _qb(4, 0, None, 0)}),
+        fl,
+        ("QDense", {"units": 2, "use_bias": True},
+         {"kernel_quantizer": _qb(4, 2, "auto_po2"), "bias_quantizer": _qb(4, 2, None),
+          "activation": None})], "chain", 10))
+    ms.append(_desc([4], [
+        ("QDense", {"units": 3, "use_bias": True},
+         {"kernel_quantizer": binr, "bias_quantizer": tern, "activation": relu}),
+        ("QBatchNormalization", {}, {}),
+        ("QDense", {"units": 2, "use_bias": True},
+         {"kernel_quantizer": _qb(4, 1, None), "bias_quantizer": rpo2,
+          "activation": None})], "vec", 8))
+  return ms
